@@ -7,10 +7,16 @@ from .. import lifecycle as L
 from .. import liferun
 
 
-def lifecycle_part(rep, a, tags, quick, thorough, devs, quick_paths=24, maxlen=12):
+def lifecycle_part(rep, a, tags, quick, thorough, devs, quick_paths=24, maxlen=12, trace_worlds=None, trace_num=8):
     th = rep.tier == "thorough"
     worlds = thorough if th else quick
     findings = liferun.run(rep, worlds, max_paths=None if th else quick_paths, maxlen=maxlen, seed=rep.seed, procs=a.procs)
+    if trace_worlds:
+        # direction B: behaviours simulated by TLC (longer than the covering paths) are executed, recorded and
+        # validated by TLC against the specification (TraceLife)
+        from .. import tracelife
+        findings += tracelife.run(rep, trace_worlds if not th else worlds, num=trace_num if not th else 40, depth=14 if not th else 18,
+                                  seed=rep.seed, procs=a.procs)
     liferun.report_findings(rep, findings, tags)
     for cap, dev in devs:
         res = L.deviation_counterexample(cap, True, False, True, dev)
